@@ -2,9 +2,21 @@
 //! `leaky`: every (refill, interval, max, initial) tuple over small values and boundary classes,
 //! each with fixed and seeded-random call scripts, run through the real LeakyBucketRateLimiter on
 //! the paused tokio clock; every call result and the public balance are recorded.
-use crate::trace::{Batch, Rng};
-use ractor::factory::{LeakyBucketRateLimiter, RateLimiter};
+use crate::explore::{Explorer, Mode};
+use crate::fam_lifecycle::yield_once;
+use crate::tdrv::{run_t, NoBetween};
+use crate::trace::{ev_json, Batch, Names, Rng};
+use ractor::factory::queues::{DefaultQueue, PriorityManager, PriorityQueue, Queue, StandardPriority};
+use ractor::factory::routing::{CustomHashFunction, CustomRouting, KeyPersistentRouting, QueuerRouting, RoundRobinRouting, Router, StickyQueuerRouting};
+use ractor::factory::{
+    DiscardHandler, DiscardMode, DiscardReason, DiscardSettings, Factory, FactoryArguments, FactoryLifecycleHooks, FactoryMessage, Job,
+    JobOptions, LeakyBucketRateLimiter, RateLimitedRouter, RateLimiter, UpdateSettingsRequest, WorkerBuilder, WorkerMessage, WorkerStartContext,
+};
+use ractor::verif::{self, Val};
+use ractor::{Actor, ActorCell, ActorProcessingErr, ActorRef, Message, RpcReplyPort};
 use serde_json::{json, Value};
+use std::collections::HashMap;
+use std::sync::{Arc, Mutex};
 use std::time::Duration;
 
 // ------------------------------------------------------------------------------------------------
@@ -133,10 +145,597 @@ pub fn leaky_batch(out: &str, tier: &str, seed: u64) -> Value {
     json!({"family": "leaky", "runs": b.runs, "events": b.events, "tuples": tuples, "distinct": b.hashes.len(), "samples": b.samples})
 }
 
+
+// ------------------------------------------------------------------------------------------------
+// factory: scenario language
+// ------------------------------------------------------------------------------------------------
+#[derive(Clone, Copy, Debug, PartialEq)]
+pub enum Routing {
+    Queuer,
+    Sticky,
+    KeyP,
+    RoundRobin,
+    Custom,
+}
+impl Routing {
+    fn name(&self) -> &'static str {
+        match self {
+            Routing::Queuer => "queuer",
+            Routing::Sticky => "sticky",
+            Routing::KeyP => "keyp",
+            Routing::RoundRobin => "rr",
+            Routing::Custom => "custom",
+        }
+    }
+}
+
+/// how the worker ends the job
+#[derive(Clone, Copy, Debug, PartialEq)]
+pub enum Beh {
+    Ok,
+    Panic,
+    Err,
+    /// report completion, then kill itself (completion and death are both pending afterwards)
+    KillAfter,
+    /// kill itself in the middle of the job
+    KillMid,
+}
+
+pub struct JobMsg {
+    pub id: i64,
+    pub beh: Beh,
+    pub yields: u8,
+    pub sleep_ms: u64,
+}
+impl Message for JobMsg {}
+
+pub const MAXW: usize = 4;
+pub const KEYS: [u64; 3] = [1, 2, 3];
+
+#[derive(Clone, Debug)]
+pub enum COp {
+    Submit { id: i64, key: u64, ttl: Option<u64>, port: bool, beh: Beh, yields: u8, sleep_ms: u64 },
+    Adjust(usize),
+    Drain,
+    Update { limit: Option<(usize, bool)>, wc: Option<usize> }, // (limit, newest?)
+    KillWorker(usize),
+    Sleep(u64),
+    Pause,
+}
+
+#[derive(Clone, Debug)]
+pub struct FScn {
+    pub routing: Routing,
+    pub rl: Option<(usize, u64, usize, usize)>, // refill, interval ms, max, initial
+    pub prioq: bool,
+    pub nd_keys: Vec<u64>, // keys the priority manager declares non-discardable
+    pub workers: usize,
+    pub limit: Option<(usize, bool)>, // (limit, newest?)
+    pub chash: [u64; 3],              // what the custom hash function returns per key
+    pub hook_yield: bool,
+    pub clients: Vec<Vec<COp>>,
+    pub horizon_ms: u64,
+}
+
+fn prio_of(key: u64) -> usize {
+    // key 1 -> Highest(0), key 2 -> Important(2), key 3 -> BestEffort(4)
+    match key {
+        1 => 0,
+        2 => 2,
+        _ => 4,
+    }
+}
+
+// ------------------------------------------------------------------------------------------------
+// the world of one run
+// ------------------------------------------------------------------------------------------------
+#[derive(Default)]
+struct World {
+    pid_inc: HashMap<u64, i64>,
+    inc_cell: HashMap<i64, ActorCell>,
+    slot_inc: HashMap<usize, i64>,
+    next_inc: i64,
+    factory_pid: u64,
+}
+type W = Arc<Mutex<World>>;
+
+fn kvs(k: &str, v: &str) -> (String, Val) {
+    (k.to_string(), Val::S(v.to_string()))
+}
+fn kvi(k: &str, v: i64) -> (String, Val) {
+    (k.to_string(), Val::I(v))
+}
+fn obs(label: &str, d: i64, kv: Vec<(String, Val)>) {
+    verif::emit_kv(label, 0, d, kv);
+}
+
+fn tagger(v: &dyn std::any::Any) -> i64 {
+    if let Some(m) = v.downcast_ref::<JobMsg>() {
+        m.id
+    } else if let Some(k) = v.downcast_ref::<u64>() {
+        *k as i64
+    } else {
+        -1
+    }
+}
+
+// ---- the worker: a plain actor speaking the worker protocol, so that it controls the order of
+// "report completion" and "die"
+struct HWorker {
+    world: W,
+}
+struct HWState {
+    wid: usize,
+    inc: i64,
+    factory: ActorRef<FactoryMessage<u64, JobMsg>>,
+}
+
+#[cfg_attr(feature = "asynctrait", ractor::async_trait)]
+impl Actor for HWorker {
+    type Msg = WorkerMessage<u64, JobMsg>;
+    type State = HWState;
+    type Arguments = WorkerStartContext<u64, JobMsg, ()>;
+
+    async fn pre_start(&self, myself: ActorRef<Self::Msg>, ctx: Self::Arguments) -> Result<HWState, ActorProcessingErr> {
+        let inc = {
+            let mut w = self.world.lock().unwrap();
+            w.next_inc += 1;
+            let inc = w.next_inc;
+            w.pid_inc.insert(myself.get_id().pid(), inc);
+            w.inc_cell.insert(inc, myself.get_cell());
+            w.slot_inc.insert(ctx.wid, inc);
+            inc
+        };
+        obs("obs.w_new", 0, vec![kvi("wid", ctx.wid as i64), kvi("inc", inc)]);
+        Ok(HWState { wid: ctx.wid, inc, factory: ctx.factory })
+    }
+
+    async fn handle(&self, myself: ActorRef<Self::Msg>, msg: Self::Msg, st: &mut HWState) -> Result<(), ActorProcessingErr> {
+        match msg {
+            WorkerMessage::FactoryPing(t) => {
+                let _ = st.factory.cast(FactoryMessage::WorkerPong(st.wid, t.elapsed()));
+            }
+            WorkerMessage::Dispatch(job) => {
+                let (id, key) = (job.msg.id, job.key);
+                let base = |st: &HWState| vec![kvi("inc", st.inc), kvi("wid", st.wid as i64), kvi("key", key as i64), kvi("id", id)];
+                obs("obs.w_start", 0, base(st));
+                for _ in 0..job.msg.yields {
+                    yield_once().await;
+                }
+                if job.msg.sleep_ms > 0 {
+                    ractor::concurrency::sleep(Duration::from_millis(job.msg.sleep_ms)).await;
+                }
+                let end = |st: &HWState, how: &str, d: i64| {
+                    let mut kv = base(st);
+                    kv.push(kvs("how", how));
+                    obs("obs.w_end", d, kv);
+                };
+                match job.msg.beh {
+                    Beh::Ok => {
+                        let ok = st.factory.cast(FactoryMessage::Finished(st.wid, key)).is_ok();
+                        end(st, "ok", i64::from(ok));
+                    }
+                    Beh::KillAfter => {
+                        let ok = st.factory.cast(FactoryMessage::Finished(st.wid, key)).is_ok();
+                        end(st, "ok", i64::from(ok));
+                        myself.kill();
+                        obs("obs.w_kill", 0, vec![kvi("inc", st.inc)]);
+                    }
+                    Beh::Panic => {
+                        end(st, "panic", 0);
+                        panic!("job panics");
+                    }
+                    Beh::Err => {
+                        end(st, "err", 0);
+                        return Err("job fails".into());
+                    }
+                    Beh::KillMid => {
+                        end(st, "killmid", 0);
+                        myself.kill();
+                        std::future::pending::<()>().await;
+                    }
+                }
+            }
+        }
+        Ok(())
+    }
+}
+
+struct HBuilder {
+    world: W,
+}
+impl WorkerBuilder<HWorker, ()> for HBuilder {
+    fn build(&mut self, _wid: usize) -> (HWorker, ()) {
+        (HWorker { world: self.world.clone() }, ())
+    }
+}
+
+struct HDiscard;
+impl DiscardHandler<u64, JobMsg> for HDiscard {
+    fn discard(&self, reason: DiscardReason, job: &mut Job<u64, JobMsg>) {
+        let r = match reason {
+            DiscardReason::TtlExpired => "ttl",
+            DiscardReason::Loadshed => "loadshed",
+            DiscardReason::Shutdown => "shutdown",
+            DiscardReason::RateLimited => "ratelimited",
+        };
+        obs("obs.discard", 0, vec![kvi("id", job.msg.id), kvs("reason", r)]);
+    }
+}
+
+struct HHooks {
+    yields: bool,
+}
+#[cfg_attr(feature = "asynctrait", ractor::async_trait)]
+impl FactoryLifecycleHooks<u64, JobMsg> for HHooks {
+    #[cfg(not(feature = "asynctrait"))]
+    fn on_factory_started(&self, _f: ActorRef<FactoryMessage<u64, JobMsg>>) -> futures::future::BoxFuture<'_, Result<(), ActorProcessingErr>> {
+        Box::pin(async move {
+            obs("obs.hook", 0, vec![kvs("name", "started")]);
+            Ok(())
+        })
+    }
+    #[cfg(not(feature = "asynctrait"))]
+    fn on_factory_stopped(&self) -> futures::future::BoxFuture<'_, Result<(), ActorProcessingErr>> {
+        Box::pin(async move {
+            obs("obs.hook", 0, vec![kvs("name", "stopped")]);
+            Ok(())
+        })
+    }
+    #[cfg(not(feature = "asynctrait"))]
+    fn on_factory_draining(&self, _f: ActorRef<FactoryMessage<u64, JobMsg>>) -> futures::future::BoxFuture<'_, Result<(), ActorProcessingErr>> {
+        let y = self.yields;
+        Box::pin(async move {
+            obs("obs.hook", 0, vec![kvs("name", "draining")]);
+            if y {
+                yield_once().await;
+            }
+            Ok(())
+        })
+    }
+}
+
+struct HHash {
+    table: [u64; 3],
+}
+impl CustomHashFunction<u64> for HHash {
+    fn hash(&self, key: &u64, _n: usize) -> usize {
+        self.table[((*key as usize).max(1) - 1) % 3] as usize
+    }
+}
+
+struct HPrio {
+    nd: Vec<u64>,
+}
+impl PriorityManager<u64, StandardPriority> for HPrio {
+    fn is_discardable(&self, key: &u64) -> bool {
+        !self.nd.contains(key)
+    }
+    fn get_priority(&self, key: &u64) -> Option<StandardPriority> {
+        Some(StandardPriority::from(prio_of(*key)))
+    }
+}
+type PQ = PriorityQueue<u64, JobMsg, StandardPriority, HPrio, 5>;
+
+fn dsettings(l: Option<(usize, bool)>) -> DiscardSettings {
+    match l {
+        None => DiscardSettings::None,
+        Some((limit, newest)) => DiscardSettings::Static { limit, mode: if newest { DiscardMode::Newest } else { DiscardMode::Oldest } },
+    }
+}
+
+async fn start_with<R, Q>(sc: &FScn, w: &W, router: R, queue: Q) -> Option<ActorRef<FactoryMessage<u64, JobMsg>>>
+where
+    R: Router<u64, JobMsg>,
+    Q: Queue<u64, JobMsg>,
+{
+    let def = Factory::<u64, JobMsg, (), HWorker, R, Q>::default();
+    let args = FactoryArguments {
+        num_initial_workers: sc.workers,
+        queue,
+        router,
+        capacity_controller: None,
+        dead_mans_switch: None,
+        discard_handler: Some(Arc::new(HDiscard)),
+        discard_settings: dsettings(sc.limit),
+        lifecycle_hooks: Some(Box::new(HHooks { yields: sc.hook_yield })),
+        worker_builder: Box::new(HBuilder { world: w.clone() }),
+        stats: None,
+    };
+    match Actor::spawn(None, def, args).await {
+        Ok((f, _h)) => Some(f),
+        Err(_) => None,
+    }
+}
+
+async fn start_q<R: Router<u64, JobMsg>>(sc: &FScn, w: &W, router: R) -> Option<ActorRef<FactoryMessage<u64, JobMsg>>> {
+    if sc.prioq {
+        start_with(sc, w, router, PQ::new(HPrio { nd: sc.nd_keys.clone() })).await
+    } else {
+        start_with(sc, w, router, DefaultQueue::<u64, JobMsg>::default()).await
+    }
+}
+
+async fn start_rl<R: Router<u64, JobMsg>>(sc: &FScn, w: &W, router: R) -> Option<ActorRef<FactoryMessage<u64, JobMsg>>> {
+    match sc.rl {
+        None => start_q(sc, w, router).await,
+        Some((refill, iv, max, initial)) => {
+            let rate_limiter = LeakyBucketRateLimiter::builder().refill(refill).interval(Duration::from_millis(iv)).max(max).initial(initial).build();
+            start_q(sc, w, RateLimitedRouter { router, rate_limiter }).await
+        }
+    }
+}
+
+async fn start_factory(sc: &FScn, w: &W) -> Option<ActorRef<FactoryMessage<u64, JobMsg>>> {
+    match sc.routing {
+        Routing::Queuer => start_rl(sc, w, QueuerRouting::<u64, JobMsg>::default()).await,
+        Routing::Sticky => start_rl(sc, w, StickyQueuerRouting::<u64, JobMsg>::default()).await,
+        Routing::KeyP => start_rl(sc, w, KeyPersistentRouting::<u64, JobMsg>::default()).await,
+        Routing::RoundRobin => start_rl(sc, w, RoundRobinRouting::<u64, JobMsg>::default()).await,
+        Routing::Custom => start_rl(sc, w, CustomRouting::<u64, JobMsg, HHash>::new(HHash { table: sc.chash })).await,
+    }
+}
+
+async fn client(sc: Arc<FScn>, w: W, f: ActorRef<FactoryMessage<u64, JobMsg>>, ops: Vec<COp>, ci: usize) {
+    for (oi, op) in ops.into_iter().enumerate() {
+        yield_once().await;
+        match op {
+            COp::Pause => {}
+            COp::Sleep(ms) => ractor::concurrency::sleep(Duration::from_millis(ms)).await,
+            COp::Submit { id, key, ttl, port, beh, yields, sleep_ms } => {
+                let mut job = Job { key, msg: JobMsg { id, beh, yields, sleep_ms }, options: JobOptions::new(ttl.map(Duration::from_millis)), accepted: None };
+                let mut rx = None;
+                if port {
+                    let (tx, r) = ractor::concurrency::oneshot::<Option<Job<u64, JobMsg>>>();
+                    job.accepted = Some(RpcReplyPort::from(tx));
+                    rx = Some(r);
+                }
+                let ok = f.cast(FactoryMessage::Dispatch(job)).is_ok();
+                let nd = sc.prioq && sc.nd_keys.contains(&key);
+                obs(
+                    "obs.submit",
+                    i64::from(ok),
+                    vec![
+                        kvi("id", id),
+                        kvi("key", key as i64),
+                        kvi("ttl", ttl.map(|t| t as i64).unwrap_or(-1)),
+                        kvi("port", i64::from(port)),
+                        kvi("prio", if sc.prioq { prio_of(key) as i64 } else { 0 }),
+                        kvi("nd", i64::from(nd)),
+                    ],
+                );
+                if let Some(rx) = rx {
+                    let _ = ractor::concurrency::spawn_named(Some(&format!("waiter{ci}_{oi}")), async move {
+                        let res = match rx.await {
+                            Ok(None) => "accepted",
+                            Ok(Some(_)) => "returned",
+                            Err(_) => "dropped",
+                        };
+                        obs("obs.reply", 0, vec![kvi("id", id), kvs("res", res)]);
+                    });
+                }
+            }
+            COp::Adjust(n) => {
+                let ok = f.cast(FactoryMessage::AdjustWorkerPool(n)).is_ok();
+                obs("obs.adjust", i64::from(ok), vec![kvi("n", n as i64)]);
+            }
+            COp::Drain => {
+                let ok = f.cast(FactoryMessage::DrainRequests).is_ok();
+                obs("obs.drain", i64::from(ok), vec![]);
+            }
+            COp::Update { limit, wc } => {
+                let req = UpdateSettingsRequest {
+                    discard_handler: None,
+                    discard_settings: limit.map(|l| dsettings(Some(l))),
+                    dead_mans_switch: None,
+                    capacity_controller: None,
+                    lifecycle_hooks: None,
+                    stats: None,
+                    worker_count: wc,
+                };
+                let ok = f.cast(FactoryMessage::UpdateSettings(req)).is_ok();
+                let (lim, mode) = match limit {
+                    None => (-2, "same"),
+                    Some((l, true)) => (l as i64, "newest"),
+                    Some((l, false)) => (l as i64, "oldest"),
+                };
+                obs("obs.update", i64::from(ok), vec![kvi("lim", lim), kvs("mode", mode), kvi("wc", wc.map(|c| c as i64).unwrap_or(-1))]);
+            }
+            COp::KillWorker(wid) => {
+                let tgt = {
+                    let g = w.lock().unwrap();
+                    g.slot_inc.get(&wid).and_then(|inc| g.inc_cell.get(inc).map(|c| (*inc, c.clone())))
+                };
+                if let Some((inc, cell)) = tgt {
+                    cell.kill();
+                    obs("obs.w_kill", 0, vec![kvi("inc", inc)]);
+                }
+            }
+        }
+    }
+}
+
+const FKEEP: &[&str] = &[
+    "obs.cfg", "obs.w_new", "obs.w_start", "obs.w_end", "obs.w_kill", "obs.discard", "obs.hook", "obs.submit", "obs.reply", "obs.adjust",
+    "obs.drain", "obs.update", "factory.step", "factory.cast", "guard.cleanup",
+];
+
+fn hash_tables(sc: &FScn) -> (Value, Value) {
+    // KeyPersistent: hash_with_max(key, n) for n = 1..MAXW (row per key); custom: hash(key) % n
+    let kph: Vec<Vec<i64>> = KEYS.iter().map(|k| (1..=MAXW).map(|n| ractor::factory::hash::hash_with_max(k, n) as i64).collect()).collect();
+    let ch: Vec<Vec<i64>> = (0..3).map(|i| (1..=MAXW).map(|n| (sc.chash[i] % n as u64) as i64).collect()).collect();
+    (json!(kph), json!(ch))
+}
+
+static RUN_SEQ: std::sync::atomic::AtomicU64 = std::sync::atomic::AtomicU64::new(0);
+
+pub fn factory_run(sc: &FScn, ex: &mut Explorer) -> (Vec<Value>, Value, bool) {
+    verif::set_tagger(tagger);
+    let _ = RUN_SEQ.fetch_add(1, std::sync::atomic::Ordering::SeqCst);
+    let sc = Arc::new(sc.clone());
+    let w: W = Arc::new(Mutex::new(World::default()));
+    let fcell: Arc<Mutex<Option<ActorCell>>> = Arc::new(Mutex::new(None));
+    let fin: Arc<Mutex<Value>> = Arc::new(Mutex::new(json!(null)));
+    let (sc2, w2, fcell2) = (sc.clone(), w.clone(), fcell.clone());
+    let (fin3, w3, fcell3) = (fin.clone(), w.clone(), fcell.clone());
+    let run = run_t(
+        ex,
+        6000,
+        sc.horizon_ms,
+        &mut NoBetween,
+        move || async move {
+            // the starter task spawns the factory (its pre_start spawns the initial workers) and then the clients
+            let (sc3, w4, fc) = (sc2.clone(), w2.clone(), fcell2.clone());
+            let _ = ractor::concurrency::spawn_named(Some("starter"), async move {
+                if let Some(f) = start_factory(&sc3, &w4).await {
+                    w4.lock().unwrap().factory_pid = f.get_id().pid();
+                    *fc.lock().unwrap() = Some(f.get_cell());
+                    for (ci, ops) in sc3.clients.iter().enumerate() {
+                        let _ = ractor::concurrency::spawn_named(Some(&format!("client{ci}")), client(sc3.clone(), w4.clone(), f.clone(), ops.clone(), ci));
+                    }
+                }
+            });
+        },
+        move || {
+            let g = w3.lock().unwrap();
+            if let Some(fc) = fcell3.lock().unwrap().as_ref() {
+                let mut live: Vec<i64> = fc
+                    .get_children()
+                    .iter()
+                    .filter(|c| (c.get_status() as i64) < (ractor::ActorStatus::Stopping as i64))
+                    .filter_map(|c| g.pid_inc.get(&c.get_id().pid()).copied())
+                    .collect();
+                live.sort_unstable();
+                *fin3.lock().unwrap() = json!({"live": live, "fst": fc.get_status() as i64});
+            }
+        },
+    );
+    let g = w.lock().unwrap();
+    let names = Names::default();
+    let (kph, ch) = hash_tables(&sc);
+    let mut evs: Vec<Value> = vec![];
+    let rl = match sc.rl {
+        None => json!([0, 0, 0, 0, 0]),
+        Some((r, i, m, n)) => json!([1, r, i, m, n]),
+    };
+    let (lim, mode) = match sc.limit {
+        None => (-1, "none"),
+        Some((l, true)) => (l as i64, "newest"),
+        Some((l, false)) => (l as i64, "oldest"),
+    };
+    evs.push(json!({"a": "obs.cfg", "who": "drv", "obj": "", "d": 0, "t": 0, "routing": sc.routing.name(), "rl": rl, "prioq": i64::from(sc.prioq),
+                    "workers": sc.workers, "lim": lim, "mode": mode, "kph": kph, "ch": ch}));
+    for e in &run.events {
+        if !FKEEP.contains(&e.a.as_str()) {
+            continue;
+        }
+        let mut j = ev_json(e, &names);
+        let o = j.as_object_mut().unwrap();
+        match e.a.as_str() {
+            "guard.cleanup" => {
+                if e.obj == g.factory_pid && g.factory_pid != 0 {
+                    o.insert("a".into(), json!("obs.f_dead"));
+                    o.insert("inc".into(), json!(0));
+                } else if let Some(inc) = g.pid_inc.get(&e.obj) {
+                    o.insert("a".into(), json!("obs.w_dead"));
+                    o.insert("inc".into(), json!(inc));
+                } else {
+                    continue;
+                }
+            }
+            "factory.cast" => {
+                o.insert("inc".into(), json!(g.pid_inc.get(&e.obj).copied().unwrap_or(0)));
+            }
+            "factory.step" => {
+                if e.obj != g.factory_pid {
+                    continue;
+                }
+                let kind = o.get("kind").and_then(|k| k.as_str()).unwrap_or("").to_string();
+                if kind.starts_with("sup_") {
+                    let pid = o.get("a1").and_then(|x| x.as_i64()).unwrap_or(0) as u64;
+                    o.insert("a1".into(), json!(g.pid_inc.get(&pid).copied().unwrap_or(0)));
+                }
+                let mut snap: Value = serde_json::from_str(o.get("snap").and_then(|s| s.as_str()).unwrap_or("{}")).unwrap_or(json!({}));
+                if let Some(ws) = snap.get_mut("w").and_then(|x| x.as_array_mut()) {
+                    for wv in ws.iter_mut() {
+                        let pid = wv.get("pid").and_then(|x| x.as_u64()).unwrap_or(0);
+                        let wo = wv.as_object_mut().unwrap();
+                        wo.remove("pid");
+                        wo.insert("inc".into(), json!(g.pid_inc.get(&pid).copied().unwrap_or(0)));
+                    }
+                }
+                let so = snap.as_object_mut().unwrap();
+                for (k, dv) in [("av", json!([])), ("inq", json!([])), ("last", json!(-1)), ("bal", json!(-1))] {
+                    so.entry(k.to_string()).or_insert(dv);
+                }
+                o.insert("snap".into(), snap);
+            }
+            _ => {}
+        }
+        o.insert("obj".into(), json!(""));
+        evs.push(j);
+    }
+    let fin = fin.lock().unwrap().clone();
+    evs.push(json!({"a": "obs.end", "who": "drv", "obj": "", "d": 0, "t": sc.horizon_ms, "fin": fin}));
+    let bad = !run.quiescent;
+    let meta = json!({"family": "factory", "scenario": format!("{:?}", sc), "sched": ex.sched, "steps": run.steps, "quiescent": run.quiescent});
+    (evs, meta, bad)
+}
+
+fn sub(id: i64, key: u64) -> COp {
+    COp::Submit { id, key, ttl: None, port: false, beh: Beh::Ok, yields: 1, sleep_ms: 0 }
+}
+fn subb(id: i64, key: u64, beh: Beh) -> COp {
+    COp::Submit { id, key, ttl: None, port: false, beh, yields: 1, sleep_ms: 0 }
+}
+
+fn base_scn(routing: Routing, workers: usize) -> FScn {
+    FScn { routing, rl: None, prioq: false, nd_keys: vec![], workers, limit: None, chash: [7, 12, 5], hook_yield: false, clients: vec![], horizon_ms: 250 }
+}
+
+pub fn factory_micro() -> Vec<FScn> {
+    let mut v = vec![];
+    // plain flow
+    let mut s = base_scn(Routing::Queuer, 2);
+    s.clients = vec![vec![sub(1, 1), sub(2, 2), sub(3, 1)]];
+    v.push(s);
+    v
+}
+
+pub fn factory_batch(out: &str, tier: &str, seed: u64) -> Value {
+    let mut b = Batch::new(Some(out));
+    let (dfs_cap, _nrand) = if tier == "thorough" { (2000usize, 4000usize) } else { (150usize, 400usize) };
+    let mut nontrivial = std::collections::HashSet::new();
+    let mut bad_runs = 0u64;
+    for sc in factory_micro() {
+        let mut ex = Explorer::new(Mode::Dfs { preempt_bound: Some(2) }, seed);
+        let mut n = 0;
+        loop {
+            ex.begin_run();
+            let (evs, meta, bad) = factory_run(&sc, &mut ex);
+            let h = b.run(meta, &evs);
+            if ex.nontrivial {
+                nontrivial.insert(h);
+            }
+            if bad {
+                bad_runs += 1;
+            }
+            n += 1;
+            if !ex.end_run() || n >= dfs_cap {
+                break;
+            }
+        }
+    }
+    b.finish();
+    json!({"family": "factory", "runs": b.runs, "events": b.events, "distinct": b.hashes.len(),
+           "distinct_nontrivial": nontrivial.len(), "bad_runs": bad_runs, "samples": b.samples})
+}
+
 pub fn dispatch(cmd: &str, a: &std::collections::HashMap<String, String>) -> Option<Value> {
     let (out, tier, seed) = crate::common(a);
     match cmd {
         "leaky" => Some(leaky_batch(&out, &tier, seed)),
+        "factory" => Some(factory_batch(&out, &tier, seed)),
         _ => None,
     }
 }
